@@ -196,6 +196,57 @@ func (m *Model) MinCycleThrough(f *MFn) (int, bool) {
 	return 0, false
 }
 
+// RunCycleThrough: with candidate f tentatively registered, is there a cycle
+// through f in the run-time resolution graph (every constructor's parameters
+// resolved nearest-wins from the scope it was provided to; soft groups
+// ignored) all of whose constructors are visible from one scope S? Such a
+// cycle is a real dependency cycle among constructors as seen from S.
+func (m *Model) RunCycleThrough(f *MFn) (int, []int, bool) {
+	for _, sc := range m.Scopes {
+		if len(sc.DecoL) > 0 {
+			return 0, nil, false // decorators change resolution; not judged here
+		}
+	}
+	home := m.Scopes[f.Home]
+	home.Ctors = append(home.Ctors, f)
+	m.Fns[f.ID] = f
+	defer func() {
+		home.Ctors = home.Ctors[:len(home.Ctors)-1]
+		delete(m.Fns, f.ID)
+	}()
+	for _, S := range m.Subtree(f.Home) {
+		vis := func(g *MFn) bool { return g.Kind == KCtor && m.IsAnc(g.Home, S) }
+		seen := map[*MFn]bool{}
+		var path []int
+		var dfs func(u *MFn) bool
+		dfs = func(u *MFn) bool {
+			path = append(path, u.ID)
+			for _, l := range u.Leaves {
+				for _, v := range m.Targets(u, l) {
+					if !vis(v) {
+						continue
+					}
+					if v == f {
+						return true
+					}
+					if !seen[v] {
+						seen[v] = true
+						if dfs(v) {
+							return true
+						}
+					}
+				}
+			}
+			path = path[:len(path)-1]
+			return false
+		}
+		if dfs(f) {
+			return S, path, true
+		}
+	}
+	return 0, nil, false
+}
+
 // StrictCyclicAt: does the strict reading of scope S (all providers on the
 // path) contain a cycle anywhere?
 func (m *Model) StrictCyclicAt(S int) bool {
@@ -307,8 +358,15 @@ func checkC05History(c *Case, st *Stats) *Failure {
 				if dup == "" && !m.MaxCyclic(all) {
 					setFail(&Failure{CSpuriousCycle, fmt.Sprintf("op %d (%s) rejected as a cycle although the graph is acyclic under the most permissive reading: %v", i, op.Short(), out.Err)})
 				}
+				_, minOK := m.MinCycleThrough(mf)
 				if S, ok := m.MinCycleThrough(mf); ok && S != mf.Home {
 					l["cycle-only-below-target"] = true
+				}
+				if _, _, ok := m.RunCycleThrough(mf); ok && dup == "" {
+					l["cycle-rejected-is-run-time-cycle"] = true
+					if !minOK {
+						l["cycle-rejected-run-time-only(not-nearest-wins)"] = true
+					}
 				}
 				for _, lf := range mf.Leaves {
 					if lf.IsGroup || lf.Opt {
@@ -340,6 +398,10 @@ func checkC05History(c *Case, st *Stats) *Failure {
 				if !c.Cfg.Defer && dup == "" {
 					if S, ok := m.MinCycleThrough(mf); ok {
 						setFail(&Failure{"missed-cycle-at-provide", fmt.Sprintf("op %d (%s) was accepted although it closes a cycle as seen from scope %d (nearest-wins reading)", i, op.Short(), S)})
+					}
+					if S, path, ok := m.RunCycleThrough(mf); ok {
+						l["run-cycle-at-provide"] = true
+						setFail(&Failure{"missed-cycle-at-provide", fmt.Sprintf("op %d (%s) was accepted although it closes the run-time dependency cycle %v, all of whose constructors are visible from scope %d", i, op.Short(), path, S)})
 					}
 				}
 				m.AddCtor(mf)
